@@ -1200,6 +1200,7 @@ class Interp:
         before_names = set(env)
         self.loops.append(lc)
         sym.DEPTH[0] = len(self.loops)
+        sym.SCOPE.append(k)
         try:
             self.assign(st.target, item, frame)
             try:
@@ -1211,6 +1212,7 @@ class Interp:
         finally:
             self.loops.pop()
             sym.DEPTH[0] = len(self.loops)
+            sym.SCOPE.pop()
         # eliminate k from pending parametric writes
         for oid, (obj, layers) in lc.pending.items():
             if self.loops and getattr(obj, 'birth', 0) < len(self.loops):
@@ -1261,7 +1263,7 @@ class Interp:
             return acc
         if kind == 'mat':
             if isinstance(item, Arr):
-                item = Mat(1, item.n, lambda r, c, a=item, _f_a=a.f: _f_a(c))
+                item = Mat(1, item.n, lambda r, c, _f_a=item.f: _f_a(c))
             if not isinstance(item, Mat):
                 raise Unsupported('vstack non-matrix')
             if acc.nc is None:
@@ -1417,18 +1419,19 @@ class Interp:
                 key = lift(l['cell'][1])
                 val = lift(l['val'])
                 guard = l['guard']
-                # the summation range is recovered from the loop domain inside guard: we sum over all
-                # integers k in [lo, hi) -- guard contains the domain, so use an indicator body
                 lo, hi = loop_bounds(guard, k)
-                if lo is None:
+                if lo is None or hi is None:
                     raise Unsupported('accumulation bounds')
-                body = lambda j, key=key, val=val, guard=guard, k=k: ite(
-                    z3.And(z3.substitute(guard, (k, lift(j))), z3.substitute(key, (k, lift(j))) == lift(i)),
-                    z3.substitute(val, (k, lift(j))), sym._zero_like(val))
-                P = sym.SUMS.prefix_param(body, lift(i)) if hasattr(sym.SUMS, 'prefix_param') else None
-                if P is None:
-                    raise Unsupported('parametric sums unavailable')
-                out = binop('Add', out, P(hi) - P(lo))
+                pv = z3.Int(fresh_name('cell'))
+                sym.SCOPE.append(pv)
+                try:
+                    P = sym.SUMS.prefix(lambda j, key=key, val=val, guard=guard, k=k, pv=pv: ite(
+                        z3.And(z3.substitute(guard, (k, lift(j))), z3.substitute(key, (k, lift(j))) == pv),
+                        z3.substitute(val, (k, lift(j))), sym._zero_like(val)), self.pc)
+                finally:
+                    sym.SCOPE.pop()
+                term = lift(P(hi)) - lift(P(lo))
+                out = binop('Add', out, z3.substitute(term, (pv, lift(i))))
             return out
         return newf
 
